@@ -41,32 +41,30 @@ func newStorageManager(storage fiber.Storage) *storageManager {
 }
 
 // get raw data from storage or memory
-func (m *storageManager) getRaw(key string) []byte {
-	var raw []byte
+func (m *storageManager) getRaw(key string) ([]byte, error) {
 	if m.storage != nil {
-		raw, _ = m.storage.Get(key) //nolint:errcheck // TODO: Do not ignore error
-	} else {
-		raw, _ = m.memory.Get(key).([]byte) //nolint:errcheck // TODO: Do not ignore error
+		return m.storage.Get(key)
 	}
-	return raw
+	raw, _ := m.memory.Get(key).([]byte) //nolint:errcheck // a missing or foreign value is "not found"
+	return raw, nil
 }
 
 // set data to storage or memory
-func (m *storageManager) setRaw(key string, raw []byte, exp time.Duration) {
+func (m *storageManager) setRaw(key string, raw []byte, exp time.Duration) error {
 	// the key is crucial in crsf and sometimes a reference to another value which can be reused later(pool/unsafe values concept), so a copy is made here
 	key = utils.CopyString(key)
 	if m.storage != nil {
-		_ = m.storage.Set(key, raw, exp) //nolint:errcheck // TODO: Do not ignore error
-	} else {
-		m.memory.Set(key, raw, exp)
+		return m.storage.Set(key, raw, exp)
 	}
+	m.memory.Set(key, raw, exp)
+	return nil
 }
 
 // delete data from storage or memory
-func (m *storageManager) delRaw(key string) {
+func (m *storageManager) delRaw(key string) error {
 	if m.storage != nil {
-		_ = m.storage.Delete(key) //nolint:errcheck // TODO: Do not ignore error
-	} else {
-		m.memory.Delete(key)
+		return m.storage.Delete(key)
 	}
+	m.memory.Delete(key)
+	return nil
 }
